@@ -13,6 +13,16 @@ CHECKS = {
    'Drives the real MarchingCubesUniform/Octree through render.ToTriangles with harness-prescribed corner values: all 256 single-cell configurations and all 3x4096 face-adjacent pairs (sign space enumerated exhaustively, magnitudes sampled incl. exact zeros and sub-epsilon), random dense fields and analytic CSG scenes. Each mesh is welded at 1e-6 cell and checked for directed-edge balance, identical-vertex triangles and positive signed volume.',
    'Sign-configuration space is exhaustive; corner magnitudes, scenes, resolutions are sampled. Lattice structure is learned, not assumed; an unrecognised lattice makes the run inconclusive.',
    'DESIGN.md 2/C05'),
+ 'C06': ('exploration',
+   'offline checker over the recorded (point,value) event log of real renders: each vertex = linear zero crossing of a straddling lattice edge; analytic error bounds; two-sided mesh-surface distance sampling',
+   'Renders analytic shapes with both marching-cubes renderers through a recording SDF wrapper and checks every output vertex against the log (pins value/coordinate pairing, batch offsetting, cell arithmetic without knowing how they are coded), plus |f(v)| bounds (plane exact, sphere h^2/(8(R-h)), exact fields h), mesh<->surface distances within one cell diagonal, sampled-box containment, normal/gradient agreement and the sphere volume bound; measured convergence ratio reported.',
+   'Explored resolutions 6..40 quick / 6..150 thorough; bounds are analytic, sampling of surface/mesh points is PRNG-driven.',
+   'DESIGN.md 2/C06'),
+ 'C08': ('exploration',
+   'offline contour checker (endpoint welding, degree parity, event-log zero-crossing match) over real marching-squares renders collected through a caller-owned Line2Buffer channel',
+   'All 16 single-cell configurations and all 2x64 edge-adjacent pairs (exhaustive in signs, sampled magnitudes incl. zeros / sub-epsilon) through both 2D renderers via lattice-lookup fields, random dense fields, and analytic circles/boxes with endpoint-accuracy, straight-edge exactness and perimeter bounds.',
+   'Sign space exhaustive, magnitudes and shapes sampled; degree exactly 2 demanded only for generic corner values (even degree always).',
+   'DESIGN.md 2/C08'),
  'C16': ('exploration',
    'runtime differential monitor: pruned Evaluate vs EvaluateSlow with operand-call counting wrappers; clamp/farthest-corner oracle for MinMaxDist2',
    'Executes the real Box2/Box3.MinMaxDist2, Interval.Overlap and (*UnionSDF2).Evaluate on PRNG-generated boxes, points stratified over all 9/27 position classes (with class boundaries) and unions of 2-12 exact operands under 5 blend kinds, comparing each call with an independent oracle. Held-on-what-was-explored, not a proof.',
